@@ -895,6 +895,7 @@ found:
 		panic("Bad string start")
 	}
 	buf := new(bytes.Buffer)
+	continued := false // the line before ended in a backslash
 	for {
 		escape := false
 		for i, c := range x.line {
@@ -902,6 +903,7 @@ found:
 				// Continuation line - remove \ then continue
 				if c == '\n' {
 					buf.Truncate(buf.Len() - 1)
+					continued = true
 					goto readMore
 				}
 				_, _ = buf.WriteRune(c)
@@ -921,15 +923,22 @@ found:
 			}
 		}
 		if !multiLineString {
-			x.SyntaxErrorf("EOL while scanning string literal")
+			if continued && x.eof && x.line == "" {
+				// the string goes on after a backslash at the end of the last line
+				x.SyntaxErrorf("EOF while scanning string literal")
+			} else {
+				x.SyntaxErrorf("EOL while scanning string literal")
+			}
 			return eofError, nil
 		}
+		continued = false
 	readMore:
 		if x.eof {
 			if multiLineString {
 				x.SyntaxErrorf("EOF while scanning triple-quoted string literal")
 			} else {
-				x.SyntaxErrorf("EOL while scanning string literal")
+				// the string goes on after a backslash at the end of the last line
+				x.SyntaxErrorf("EOF while scanning string literal")
 			}
 			return eofError, nil
 		}
